@@ -204,6 +204,9 @@ class C20(Check):
             (('pred', 'geq', ('alwt', 0, 2, ('var', 0)), ('const', 1)), [[2, 0, 2], [0, 0, 0], [0, 0, 0]]),
             (('pred', 'leq', ('a2', 'sub', ('var', 0), ('alwt', 0, 2, ('var', 0))), ('const', 1)), [[5, 1, 3], [0, 0, 0], [0, 0, 0]]),
             (('pred', 'lt', ('var', 1), ('hist', ('var', 0))), [[1, 1, 1], [3, 0, 0], [0, 0, 0]]),
+            # the same with a Boolean connective used as min / max below a comparison
+            (('pred', 'geq', ('and', ('var', 0), ('var', 1)), ('const', 1)), [[5], [0], [0]]),
+            (('alw', ('pred', 'geq', ('and', ('var', 0), ('var', 1)), ('const', 1))), [[5, 5], [3, 0], [0, 0]]),
             # two needed windows of one variable that overlap / are nested (union of interval lists), nested bounded always in a satisfied context
             (('or', ('evt', 0, 5, ('pred', 'geq', ('var', 0), ('const', 3))), ('evt', 2, 3, ('pred', 'geq', ('var', 0), ('const', 1)))), [[0] * 8, [0] * 8, [0] * 8]),
             (('implies', ('alwt', 0, 5, ('pred', 'lt', ('var', 0), ('const', 5))), ('evt', 2, 3, ('pred', 'gt', ('var', 0), ('const', 2)))), [[1, 1, 1, 0, 1, 1, 0, 0], [0] * 8, [0] * 8]),
